@@ -16,7 +16,7 @@ EXPLANATION = (
     "documented length range / >= 8 refusal (inside bc_components::Salt) nor distinctness across invocations (randomness).")
 TRUSTED = ['Salt::new_for_size_using / new_with_len_using / new_in_range_using implement the documented length rules',
            'SecureRandomNumberGenerator is the OS CSPRNG']
-FLOORS = {'C17.1': 1, 'C17.2': 1, 'C17.3': 3, 'C17.4': 2, 'C17.5': 2}
+FLOORS = {'C17.1': 1, 'C17.2': 1, 'C17.3': 3, 'C17.4': 6, 'C17.5': 2}
 P1, P2, P3 = ('param', 1), ('param', 2), ('param', 3)
 
 
@@ -76,6 +76,22 @@ def check(ctx):
         else:
             # non-_using constructors draw their own secure randomness
             ctx.ok('C17.3', site, 'Salt::%s (self-seeding)' % c.name, nontrivial=False)
+    # C17.4 role anchor: each public length / range entry point hands the caller's request to the Salt constructor that
+    # enforces the documented rule for that kind of request (a drawn length validated afterwards is not the same refusal)
+    for name, ctor in (('add_salt_with_len_using', 'new_with_len_using'), ('add_salt_in_range_using', 'new_in_range_using')):
+        eb = F.method1('Envelope', name)
+        if eb is None:
+            ctx.lost('C17.4', 'Envelope::' + name)
+            continue
+        etb = TermBuilder(F, eb)
+        rt = strip_sites(detry(etb.return_term()))
+        want = [x for x in walk(rt) if isinstance(x, tuple) and x and x[0] == 'call' and call_name(x) == ctor and CALLEES.get(x[1]) is not None and CALLEES[x[1]].is_method('Salt', ctor)]
+        inst_ok = [x for x in want if len(x[2]) == 2 and x[2][0] == P2 and x[2][1] == P3]
+        asi = [x for x in walk(rt) if isinstance(x, tuple) and x and x[0] == 'call' and call_name(x) == 'add_salt_instance']
+        if inst_ok and asi and any(contains(a_, lambda y: y == inst_ok[0]) for a_ in asi):
+            ctx.ok('C17.4', ctx.site(eb), '%s = add_salt_instance(self, Salt::%s(request, rng)?)' % (name, ctor))
+        else:
+            ctx.fail('C17.4', ctx.site(eb), '%s does not salt with Salt::%s(the caller\'s request, the caller\'s rng): %s' % (name, ctor, fmt(rt)[:300]), key='C17.4|role|' + name)
     # C17.3: entry points without RNG parameter pass a fresh SecureRandomNumberGenerator
     for name, sib in (('add_salt', 'add_salt_using'), ('add_salt_with_len', 'add_salt_with_len_using'), ('add_salt_in_range', 'add_salt_in_range_using')):
         b = F.method1('Envelope', name)
@@ -115,31 +131,30 @@ def check(ctx):
         if new is None:
             ctx.fail('C17.5', site, 'cannot identify the inserted element: %s' % fmt(vec), key='C17.5|form')
             continue
-        # table over `salted` (param 3)
+        # table over `salted` (param 3): the element inserted at this site, built only from the definitions on the paths of each
+        # valuation, is exactly add_salt(assertion) when salted and exactly the assertion when not - for EVERY kind of assertion
+        # (plain, obscured), i.e. no other alternative may be live
+        A = ('vfield', P2, 'Some', '0')
         rows = {}
         for sv in (False, True):
-            reach = reach_under(b, tb, {P3: sv})
-            # which alternative of the inserted element is live under this valuation: evaluate reaching defs restricted to reachable blocks
-            alts = phi_alts(new)
-            live = []
-            for a in alts:
-                s_ = m_call(a, name='add_salt', self_suffix='Envelope')
-                kind = 'salted' if (s_ is not None and strip_sites(s_[0])[0] == 'vfield') else 'plain' if a[0] == 'vfield' else 'other:' + fmt(a)
-                live.append(kind)
-            rows[sv] = sorted(set(live))
-        # precise per-valuation: find the add_salt call block and test its reachability
-        salt_blocks = [bi2 for bi2, c2, t2 in b.calls() if c2 is not None and c2.name == 'add_salt' and c2.is_method('Envelope', 'add_salt')]
-        ok_tab = False
-        if len(salt_blocks) == 1:
-            r_f = salt_blocks[0] in reach_under(b, tb, {P3: False})
-            r_t = salt_blocks[0] in reach_under(b, tb, {P3: True})
-            sa = strip_sites(tb.call_args(salt_blocks[0])[0])
-            ok_tab = (r_f, r_t) == (False, True) and sa == ('vfield', P2, 'Some', '0') and bi in reach_under(b, tb, {P3: True}) and b.dominates(salt_blocks[0], bi) is False or \
-                     ((r_f, r_t) == (False, True) and sa == ('vfield', P2, 'Some', '0'))
-        if ok_tab and set(phi_alts(new)) == {('vfield', P2, 'Some', '0'), strip_sites(tb.call_value(salt_blocks[0]))}:
-            ctx.ok('C17.5', site, 'inserted element = add_salt(assertion) iff salted, else the assertion itself (table over `salted`)', sample=fmt(new))
+            got = None
+            for bj, c2, args in calls_under(b, tb, {P3: sv}):
+                if bj != bi:
+                    continue
+                v2 = strip_sites(args[1])
+                if v2[0] == 'list' and len(v2[1]) == 1:
+                    got = v2[1][0]
+                elif v2[0] == 'mut' and call_name(v2) == 'push':
+                    got = v2[3][1]
+            rows[sv] = got
+        def salted_form(x):
+            s_ = m_call(x, name='add_salt', self_suffix='Envelope') if x is not None else None
+            return s_ is not None and s_[0] == A
+        if rows[False] == A and salted_form(rows[True]):
+            ctx.ok('C17.5', site, 'inserted element = add_salt(assertion) when salted (whatever the assertion is), the assertion itself when not (table over `salted`)', sample=fmt(new))
         else:
-            ctx.fail('C17.5', site, 'inserted element is %s; add_salt reachable for salted=false/true: %s' % (fmt(new), (r_f, r_t) if len(salt_blocks) == 1 else 'n/a'), key='C17.5|table')
+            ctx.fail('C17.5', site, 'inserted element is %s for salted=false and %s for salted=true (expected the assertion / add_salt(assertion))' % (
+                fmt(rows[False]) if rows[False] is not None else 'unreachable', fmt(rows[True]) if rows[True] is not None else 'unreachable'), key='C17.5|table')
         if vec[0] == 'mut':
             # duplicate test must be about the very element inserted (C04.3 at this site)
             C04.growth(ctx_proxy(ctx, 'C17.5'), b, tb, bi, vec[3][0], new, site)
